@@ -17,7 +17,17 @@ import (
 //	findings/pinned/<name>/pinned.json   {"properties":["C18"],"sources":["models.go"],"family":"typeprog"}
 //	findings/pinned/<name>/**/*.go       package files (package clause must be `package <name>`)
 func pinnedPrograms(prop string) []*synth.Program {
-	base := filepath.Join(core.VerifDir, "findings", "pinned")
+	return programsUnder(filepath.Join(core.VerifDir, "findings", "pinned"), prop, true)
+}
+
+// staticPrograms loads the hand-written programs under /verif/programs/ registered for the
+// property (same layout): shapes the synthesisers cannot print (two declarations on one
+// line, //line directives, a user package named like a standard one).
+func staticPrograms(prop string) []*synth.Program {
+	return programsUnder(filepath.Join(core.VerifDir, "programs"), prop, false)
+}
+
+func programsUnder(base, prop string, pinned bool) []*synth.Program {
 	entries, err := os.ReadDir(base)
 	if err != nil {
 		return nil
@@ -55,7 +65,11 @@ func pinnedPrograms(prop string) []*synth.Program {
 		if p.Meta == nil {
 			p.Meta = map[string]any{}
 		}
-		p.Meta["pinned"] = true
+		if pinned {
+			p.Meta["pinned"] = true
+		} else {
+			p.Meta["static"] = true
+		}
 		filepath.Walk(dir, func(path string, info os.FileInfo, err error) error {
 			if err != nil || info.IsDir() || !strings.HasSuffix(path, ".go") {
 				return nil
@@ -69,7 +83,11 @@ func pinnedPrograms(prop string) []*synth.Program {
 			p.Sources = append(p.Sources, filepath.Join(id, s))
 		}
 		sort.Strings(p.Sources)
-		p.Feature("pinned-program")
+		if pinned {
+			p.Feature("pinned-program")
+		} else {
+			p.Feature("static-program:" + id)
+		}
 		out = append(out, p)
 	}
 	return out
